@@ -78,6 +78,9 @@ package mysql
 //@ func (*mysql.Node).SetReadOnlyWithForce
 //@   flags partial
 //@   assert_at return#* C08.force_error_passthrough [C08]: result != nil ==> reached("setReadonlyWithTimeout", 2) && result == resultof("setReadonlyWithTimeout", 2)
+//@   assert_at return#* C18.force_success_means_statement_ok [C18,C08,C01]: result == nil ==> (reached("setReadonlyWithTimeout", 1) && resultof("setReadonlyWithTimeout", 1) == nil) || (reached("setReadonlyWithTimeout", 2) && resultof("setReadonlyWithTimeout", 2) == nil)
+//@   assert_at setReadonlyWithTimeout#1 C18.force_mode_1 [C18,C08,C01]: callarg0 == superReadOnly
+//@   assert_at setReadonlyWithTimeout#2 C18.force_mode_2 [C18,C08,C01]: callarg0 == superReadOnly
 
 // ---- C20: structural invariants of the handles (assumed at entry in the sweep; see /verif/govc/typeinv.go) -----
 //@ define nodeInv(n *Node) = n.config != nil && n.logger != nil
@@ -191,6 +194,11 @@ package mysql
 //@   assert_at return#* stmt.SetOnline.answer [C17]: reached("exec", 1) && result == resultof("exec", 1)
 //@ func (*mysql.Node).SetSemiSyncWaitSlaveCount
 //@   assert_at exec#1 stmt.SetSemiSyncWaitSlaveCount.value [C04]: unbox(callarg1["wait_slave_count"], "int") == c
+//@ func (*mysql.Node).setReadonlyWithTimeout
+//@   flags partial
+//@   assert_at execWithTimeout#1 stmt.setReadonly.query [C01,C08,C10,C18]: callarg0 == (superReadOnly ? querySetReadonly : querySetReadonlyNoSuper) && callarg2 == timeout
+//@   assert_at return#* stmt.setReadonly.ok_means_confirmed [C01,C08,C10,C18]: result == nil ==> reached("execWithTimeout", 1) && resultof("execWithTimeout", 1) == nil && reached("IsReadOnly", 1) && resultof("IsReadOnly", 1, 2) == nil && resultof("IsReadOnly", 1, 0) && (resultof("IsReadOnly", 1, 1) <==> superReadOnly)
+//@   assert_at return#* stmt.setReadonly.statement_error_reported [C01,C08,C10,C18]: reached("execWithTimeout", 1) && (resultof("execWithTimeout", 1) != nil ==> result == resultof("execWithTimeout", 1))
 //@ func (*mysql.Node).SetReadOnly
 //@   flags partial
 //@   assert_at setReadonlyWithTimeout#1 stmt.SetReadOnly.flag [C01,C08,C10,C18]: callarg0 == superReadOnly
